@@ -10,7 +10,7 @@
  R6.id     put ids are even, get ids are odd: both assigners and all classifiers agree.
 """
 from absint import ValueDomain, Explorer, State, TOP, ZERO, ONE, AVal, fin, Budget
-from facts import walk, strip, strip_pre, const_value, show, lvalue_key, macro_of, key_str
+from facts import walk, strip, strip_pre, const_value, show, lvalue_key, macro_of, key_str, canon
 from frontend import AnalysisBroken
 import patterns
 from rules import r5
@@ -328,6 +328,53 @@ def check_ids(ctx, prog):
     ctx.require(ncls >= 3, "expected >= 3 id parity classifiers, found %d" % ncls)
 
 
+def check_growby(ctx, prog):
+    """sorted insertion into the request queues: the amount the non-lead queue grows by, the amount its elements are
+    shifted by and the amount added to the `nonlead_off` of the lead requests moved behind the new one are one value"""
+    import re
+    n = 0
+    for name in ("ncmpio_igetput_varm", "igetput_varn"):
+        fn = ctx.need_fn(prog, name)
+        for kind in ("Put", "Get"):
+            lst, lead, cnt = "ncp->%s_list" % kind.lower(), "ncp->%s_lead_list" % kind.lower(), "ncp->num%sReqs" % kind
+            grow, offadj, shift = set(), set(), set()
+            for b, i, e in fn.elements():
+                for x in walk(e):
+                    if x.get("k") != "asg":
+                        continue
+                    l = strip(x["a"])
+                    lt = canon(x["a"])
+                    if x.get("op") == "+=" and lt == cnt:
+                        grow.add(canon(x["b"]))
+                    if x.get("op") == "+=" and lt.startswith(lead + "[") and lt.endswith(".nonlead_off"):
+                        offadj.add(canon(x["b"]))
+                    if x.get("op") == "=" and isinstance(l, dict) and l.get("k") == "idx" and canon(l["b"]) == lst:
+                        r = strip(x["b"])
+                        if isinstance(r, dict) and r.get("k") == "idx" and canon(r["b"]) == lst:
+                            li, ri = strip(l["i"]), canon(r["i"])
+                            if isinstance(li, dict) and li.get("k") == "bin" and li.get("op") == "+" and canon(li["a"]) == ri:
+                                shift.add(canon(li["b"]))
+                            elif isinstance(li, dict) and li.get("k") == "bin" and li.get("op") == "+" and canon(li["b"]) == ri:
+                                shift.add(canon(li["a"]))
+            inst = "%s:%s" % (name, kind.lower())
+            n += 1
+            if not grow:
+                raise AnalysisBroken("%s: the %s queue length update was not found" % (name, kind.lower()))
+            if not offadj and not shift:
+                ctx.instance("R5.growby", inst)       # queues are append-only in this build
+                continue
+            vals = grow | offadj | shift
+            if len(vals) == 1 and offadj and shift:
+                ctx.ok("R5.growby", inst, "queue grows by, elements shift by and nonlead_off is adjusted by `%s`" % sorted(vals)[0])
+            else:
+                ctx.fail("R5.growby", name, "%s-queue" % kind.lower(), "inserting into the sorted %s queues: the non-lead queue grows by "
+                         "`%s`, its elements are shifted by `%s`, but the lead requests moved behind the new one get their "
+                         "nonlead_off adjusted by `%s`: a later wait on a subset of the requests extracts the wrong slice" %
+                         (kind.lower(), "/".join(sorted(grow)), "/".join(sorted(shift)) or "-", "/".join(sorted(offadj)) or "-"),
+                         fn=fn, line=fn.line, inst=inst)
+    return n
+
+
 def run(ctx):
     ctx.rule("R5.queue", "loops over the request queues are bounded by the queue's own length field")
     ctx.rule("R5.shift", "no read through a pre-shift element pointer inside a queue-compaction loop")
@@ -342,3 +389,5 @@ def run(ctx):
     check_perrec(ctx, prog)
     check_init(ctx, prog)
     check_ids(ctx, prog)
+    ctx.rule("R5.growby", "sorted queue insertion: growth, element shift and nonlead_off adjustment use one amount")
+    check_growby(ctx, prog)
